@@ -238,23 +238,38 @@ def reduce_sum(interp, v, axis):
         if v.nan is not None:
             t = z3.If(v.nan, 0 * num(t), num(t))  # pandas Series.sum skips NaN
         sym, defs = axis_sum(interp.ctx, a, t)
-        out = V(sym, rest, None, None if v.series is not None else v.nan, v.inf)
+        # pandas (a Series) skips NaN; numpy (a bare array) does not: the sum is NaN as soon as ONE entry is
+        out = V(sym, rest, None, None if v.series is not None else _flag_of_reduction(interp, v, v.nan, ax0), _flag_of_reduction(interp, v, v.inf, ax0))
         out.meta = ("sum", defs[0] if len(defs) == 1 else defs)
         return out
     return _reduce_sum_plain(interp, v, axis)
+
+
+def _flag_of_reduction(interp, v, flag, ax):
+    """NaN / inf flag of a reduction along axis `ax`: some reduced entry carries the flag"""
+    if flag is None:
+        return None
+    red = v.axes[ax]
+    if not _mentions(flag, root_space(red).u):
+        return flag
+    if len(v.axes) != 1:
+        raise Undecided("NaN / inf flag of a reduction along one axis of a 2-D array")
+    return reduce_anyall(interp, V(flag, v.axes), ax, "any").t
 
 
 def _reduce_sum_plain(interp, v, axis):
     ax = _axis(v, axis)
     rest = tuple(a for i, a in enumerate(v.axes) if i != ax)
     sym, d = formal_sum(interp.ctx, v.axes[ax], v.t, rest)
-    out = V(sym, rest, None, v.nan, v.inf)
+    out = V(sym, rest, None, _flag_of_reduction(interp, v, v.nan, ax), _flag_of_reduction(interp, v, v.inf, ax))
     out.meta = ("sum", d)
     return out
 
 
 def reduce_mean(interp, v, axis):
     ax = _axis(v, axis)
+    if v.nan is not None and v.series is not None:
+        raise Undecided("mean of a Series that may hold NaN (pandas divides by the number of non-missing entries)")
     s = reduce_sum(interp, v, axis)
     n = v.axes[ax].n
     r = s / V(n if z3.is_expr(n) else z3.IntVal(n))
